@@ -115,6 +115,13 @@ def run(R, env):
 
         found = []
         ok, off = guarded(h, Guard("end-point", boolean=endpoint), prog, env.depth, found)
+        if not ok and not succ0:
+            # a slice pattern (`[first, ..] if first.denom != coin.denom => Err, _ => {}`) leaves an untested arm for the
+            # empty route, which cannot succeed (obligation above): judge the routes of length 1, 2, 3
+            oks = [guarded(h.assume_len(routes, k_).settle(), Guard("end-point", boolean=endpoint), prog, env.depth, found) for k_ in (1, 2, 3)]
+            R.worlds += 3
+            if all(o_[0] for o_ in oks):
+                ok, off = True, None
         R.ob("C13.R2", v + ":end-point-denom", ok, "swap succeeds although the %s hop's %s differs from the offered coin's denom: %s" % (which, fld, off), fn=hk, found=found)
         # R3 message
         msgs = shared.find_msgs(prog, h, env.depth, ["poolmanager::v1beta1::" + S["msg"]])
@@ -187,7 +194,15 @@ def run(R, env):
                 R.ob("C13.R4", "SpendFunds:local:message-kind", good, "a local spend builds %d bank and %d IBC messages" % (len(banks), len(trs)), fn=hk)
                 for c, path, bi, t in banks:
                     elems = shared.vec_elems(agg_field(t, "amount") or ("none",)) or []
-                    good = rcv(agg_field(t, "to_address") or ("none",)) and len(elems) == 1 and amt_(elems[0])
+                    def same_coin(x):
+                        # the message's coin, or the same coin taken apart and put together again (`let Coin { denom, amount } = amount; .. Coin { denom, amount }`)
+                        if amt_(x):
+                            return True
+                        if x[0] == "agg" and x[1].endswith("Coin") and len(x[3]) == 2:
+                            fs_ = {n_: v_ for _, n_, v_ in x[3]}
+                            return all(n_ in fs_ and fs_[n_][0] == "field" and fs_[n_][2] == n_ and amt_(fs_[n_][1]) for n_ in ("denom", "amount"))
+                        return False
+                    good = rcv(agg_field(t, "to_address") or ("none",)) and len(elems) == 1 and same_coin(elems[0])
                     R.ob("C13.R4", "SpendFunds:local:message", good, "BankMsg::Send{to: %s, amount: %s}; expected {receiver, [amount]}" % (fmt(agg_field(t, "to_address") or ("none",))[:60], [fmt(e)[:60] for e in elems]), loc=c.body.loc(bi), fn=hk)
             else:
                 good = len(trs) == 1 and not banks
